@@ -63,7 +63,7 @@ def run(ctx):
                 R.ok(1, sample={"rule": "PANIC discharged", "fn": fn.name[-60:], "site": P.descriptor(fn, s)[:80], "by": why} if n_dis % 12 == 1 else None)
                 site_index.setdefault(fid, []).append((s, "discharged"))
                 continue
-            key = "%s|%s|%s" % (fn.name, s["kind"], P.descriptor(fn, s))
+            key = P.site_key(fn, s)
             row = ledger.get(key)
             used[key] = used.get(key, 0) + 1
             if row and used[key] <= row["max"]:
